@@ -30,7 +30,7 @@ EXPLANATION = (
     'makeMove/makeMoveB/makeSEEMove on a position that outlives the call (member or reference parameter; 8 named advancing '
     'functions excepted) every non-exceptional path to the exit or to the next make passes the matching unmake with the same move and undo record.'
     ' (8) the en-passant mask tables hold, for each file, exactly the neighbouring squares on the capturing rank (finite evaluation over the 8 files) and makeMove records an en-passant square only under that mask test; (4, 5 widths) every UndoInfo field and every packed field of the compact form is as wide as the Position attribute it holds unless a stated value range is narrower; (9) every fresh en-passant store is followed by fixupEPSquare (the normal form readFEN produces). Three genuine violations of the property on the pinned tree are recorded as known findings (8-bit clock and 16-bit move number in the compact form; makeMove records an en-passant square whose capture is illegal).'
-    ' Added later; (10) the attribute assignment inside every one-argument setter of Position has exactly the parameter on its right-hand side. (11) makeSEEMove / unMakeSEEMove remove and restore the same en-passant victim for every mover piece. (12) the normaliser TextIO::fixupEPSquare keeps an en-passant square exactly for a legal move of the mover\'s pawn to it (all 12 pieces x 2 destinations), scans legal moves only and clears the square otherwise.')
+    ' Added later; (10) the attribute assignment inside every one-argument setter of Position has exactly the parameter on its right-hand side. (11) makeSEEMove / unMakeSEEMove remove and restore the same en-passant victim for every mover piece. (12) the normaliser TextIO::fixupEPSquare keeps an en-passant square exactly for a legal move of the mover\'s pawn to it (all 12 pieces x 2 destinations), scans legal moves only and clears the square otherwise. (13) each take-back reads the mover\'s colour: the parity of side-to-move flips in the make function, flips before the read in the take-back and negations of the value read is even (makeMove/unMakeMove and makeMoveB/unMakeMoveB).')
 UNDECIDED = ('equality of hash keys of rule-equal positions as values, bit-identity after arbitrary histories, FEN round trip of '
              'counters (value-level).')
 ASSUMPTIONS = ['material domain: <= 16 men per side, pawns + promoted officers <= 8 per side (the property\'s domain)',
@@ -82,6 +82,7 @@ def run(fb, rep, tier):
     c10_setter_identity(fb, rep)
     c11_see_pair(fb, rep)
     c12_ep_normaliser(fb, rep)
+    c13_mover_colour_in_takeback(fb, rep)
 
 
 # ----------------------------------------------------------------------------- .1
@@ -1210,3 +1211,83 @@ def c12_ep_normaliser(fb, rep, clause='C02.12'):
             if v is not None and v < 0 and any((not side) and isinstance(_strip(c), dict) and _strip(c).get('k') == 'var' and _strip(c).get('id') in mark_ids for c, side in gs):
                 clears.append(e)
     rep.ob(clause, 'K2 must-pass-through', 'fixupEPSquare clears the square when the scan did not mark it valid', len(clears) >= 1, f.where, '%d clearing call(s) under `!mark`' % len(clears), f.sname)
+
+
+# ----------------------------------------------------------------------------- .13
+
+def c13_mover_colour_in_takeback(fb, rep):
+    """K1 sibling agreement on whose move is taken back.  A take-back restores colour-dependent things (the pawn under a
+    promoted piece, the castling rook of the mover's king): the colour must be the mover's, i.e. the side to move *before*
+    the move was made.  makeMove flips the side to move and unMakeMove flips it back before it reads it; the light pair
+    makeMoveB / unMakeMoveB (used by the legality test on the caller's position) never flips.  For each pair the parity of
+    (flips in the make function) + (flips before the read in the take-back) + (negations applied to the value read) must be
+    even: then the value read is the mover's colour."""
+    clause = 'C02.13'
+    n_pairs = 0
+    for mk_n, um_n in (('makeMove', 'unMakeMove'), ('makeMoveB', 'unMakeMoveB')):
+        mk, um = fb.find1(P + '::' + mk_n), fb.find1(P + '::' + um_n)
+        if rep.need(clause, mk, P + '::' + mk_n) is None or rep.need(clause, um, P + '::' + um_n) is None:
+            continue
+
+        def wm(t):
+            return isinstance(t, dict) and t.get('k') == 'mem' and ap(t) == 'this.whiteMove'
+
+        def copies(f):
+            """locals initialised from the side to move (possibly negated): id -> (decl position, negated?)"""
+            out = {}
+            for b, i, e in f.events():
+                if e.get('k') == 'decl':
+                    for v in e.get('vars', []):
+                        t, neg = _strip(v.get('init')), False
+                        while isinstance(t, dict) and t.get('k') == 'un' and t.get('op') == '!':
+                            t, neg = _strip(t.get('e')), not neg
+                        if wm(t):
+                            out[v['id']] = ((b, i), neg)
+            return out
+
+        def flips(f):
+            cp = copies(f)
+            out = []
+            for b, i, e in f.events():
+                if e.get('k') == 'asg' and e.get('op') == '=' and wm(_strip(e.get('l'))):
+                    t, neg = _strip(e.get('r')), False
+                    while isinstance(t, dict) and t.get('k') == 'un' and t.get('op') == '!':
+                        t, neg = _strip(t.get('e')), not neg
+                    src_neg = None
+                    if wm(t):
+                        src_neg = False
+                    elif isinstance(t, dict) and t.get('k') == 'var' and t.get('id') in cp:
+                        src_neg = cp[t['id']][1]
+                    if src_neg is None:
+                        return None            # the side to move is assigned something else: not a pure flip discipline
+                    if neg != src_neg:
+                        out.append((b, i, e))
+            return out
+        fm, fu = flips(mk), flips(um)
+        if fm is None or fu is None:
+            rep.broken(clause, '%s / %s assign the side to move from something other than itself' % (mk_n, um_n))
+            continue
+
+        def must_precede(f, ev_pos, target_pos):
+            """True (always before), False (never before), None (on some paths only)"""
+            if f.pos_dominates(ev_pos, target_pos):
+                return True
+            tgt = f.blocks[target_pos[0]]['ev'][target_pos[1]]
+            return False if f.path_avoiding(ev_pos, lambda x: x is tgt, lambda x: False) is None else None
+        # every flip of the make function is on every path
+        uncond = all(mk.path_avoiding((mk.entry, -1), R.at_exit, lambda x, _e=e: x is _e) is None for _, _, e in fm)
+        reads = copies(um)
+        if not reads:
+            rep.ob(clause, 'K1 sibling agreement', '%s reads no colour from the side to move' % um_n, True, um.where, '', um.sname)
+            n_pairs += 1
+            continue
+        n_pairs += 1
+        for vid, (pos_, neg) in sorted(reads.items()):
+            before = [must_precede(um, (b, i), pos_) for b, i, e in fu]
+            if None in before or not uncond:
+                rep.broken(clause, '%s / %s flip the side to move on some paths only' % (mk_n, um_n))
+                break
+            parity = (len(fm) + sum(1 for x in before if x) + (1 if neg else 0)) % 2
+            rep.ob(clause, 'K1 sibling agreement', '%s restores colour-dependent state with the colour of the side that made the move' % um_n, parity == 0, R.site(um, um.blocks[pos_[0]]['ev'][pos_[1]]),
+                   '%d flip(s) in %s, %d flip(s) before the read in %s, value %s' % (len(fm), mk_n, sum(1 for x in before if x), um_n, 'negated' if neg else 'as read'), um.sname)
+    rep.floor(clause, 'make / take-back pairs', n_pairs, 2)
